@@ -29,9 +29,16 @@ def gen_spec(rng, max_depth=6, bases=("sync", "pool"), types=LAYER_TYPES, vt=Fal
             L["base"] = rng.choice(["Exception", "UserError", "UserErrorA"])
         elif t == "throttle":
             L["count"] = rng.choice([1, 2, 3, None, "callable"])
+            if L["count"] in (1, 2, 3) and rng.random() < 0.4:
+                L["block"] = True  # submit() waits while the queue is full
         elif t == "poll":
             L["mode"] = rng.choice(["first", "first", "second_call", "fail_odd_in_handler"])
         layers.append(L)
+    # a blocking throttle below a retry layer is the configuration of a recorded finding (the retry thread holds its
+    # executor lock while its hand-over blocks; see C04 api.blocking-below-retry): generated stacks stay clear of it
+    for k, L in enumerate(layers):
+        if L["t"] == "throttle" and L.get("block") and any(U["t"] == "retry" for U in layers[k + 1:]):
+            L["block"] = False
     base = rng.choice(list(bases))
     return {"base": base, "workers": rng.choice([1, 2, 4, 8]), "layers": layers}
 
